@@ -456,6 +456,49 @@ def splitoff_bounded(run):
         'inspect.getfullargspec names/annotations against class_subobjects'))
 
 
+def crosscheck_bounded(run, qual, keys):
+    """contract evaluated natively around the real function on small inputs:
+    guards the encoding of Python's semantics (isinstance, bool-is-int, dict
+    order) that the proof of this function assumes"""
+    try:
+        rc, out, err = run_native(
+            [os.path.join(VERIF, 'checks', 'crosscheck_native.py'), qual] +
+            ['%s=%s' % kv for kv in keys.items()], run.repo, timeout=600)
+        r = json.loads(out)
+    except Exception as ex:      # noqa
+        run.broken.append('cross-check of %s failed to run: %r' % (qual, ex))
+        return
+    run.bounded.append(Bounded(
+        'cpython-crosscheck:' + qual.split('::')[1], 'every combination of '
+        'small inputs: values None/True/0/1/1.5/""/"a", lists and dicts of up '
+        'to two of them, some nested; types: built-in scalars, '
+        'bool_union_fix, Any, List / Dict[str, .] of those to depth 2, three '
+        'unions', r['evaluations'], r['failures'],
+        'the sidecar contract of %s evaluated natively around the real '
+        'function (the spec functions are executed by the native spec '
+        'run-time)' % qual))
+
+
+def dump_bounded(run):
+    try:
+        rc, out, err = run_native([os.path.join(
+            VERIF, 'checks', 'dump_native.py')], run.repo, timeout=600)
+        r = json.loads(out)
+    except Exception as ex:      # noqa
+        run.broken.append('dump stand-in failed to run: %r' % (ex,))
+        return
+    run.bounded.append(Bounded(
+        'dump-end-to-end', '9 class models (plain, defaults, _yatiml_extra at '
+        'each of 3 positions, _yatiml_attributes, 2-level inheritance with '
+        'sweeten in base and derived, enum / UserString / Path attributes, '
+        'nested objects, Optional/List/Dict attributes) x small values; '
+        'extras with 0-2 entries in both orders', r['evaluations'],
+        r['failures'],
+        'the real dumps functions: one document, no explicit tag token, plain '
+        'load equals an independently written projection (order compared), '
+        'object graph snapshot unchanged, second dump identical'))
+
+
 def defaults_bounded(run):
     try:
         rc, out, err = run_native([os.path.join(
@@ -502,8 +545,10 @@ def transforms_bounded(run):
         run.broken.append('transforms stand-in failed to run: %r' % (ex,))
         return
     run.bounded.append(Bounded(
-        'structural-transforms', 'attribute = sequence of <= 2 items / '
-        'mapping of <= 2 entries / scalar / missing; items = every mapping '
+        'structural-transforms', 'attribute = sequence of <= %d items / '
+        'mapping of <= %d entries / scalar / missing;' % ((
+            3 if os.environ.get('VERIF_BOUND') == 'large' else 2,) * 2) +
+        ' items = every mapping '
         'over the keys {id, val, x} (val scalar or a small mapping) or a '
         'non-mapping; key attribute id, value attribute in {None, val}, '
         'strict in {True, False}; plus the inverse laws on the applicable '
@@ -562,7 +607,7 @@ def replay_vc(run, it):
     if rec.get('kind') == 'native':
         # witness already is a native script result
         verdict = rec.get('verdict', verdict)
-    elif rec.get('model'):
+    elif rec.get('model') or (rec.get('inputs') and rec.get('function')):
         try:
             rc, out, err = run_native(['-m', 'pyvc.native', 'replay', path],
                                       run.repo)
@@ -722,6 +767,8 @@ def finish(run, prop, t0, write_baseline=False):
         'repo': run.repo,
         'verification_cache_hits': getattr(run, 'cache_hits', 0),
     }
+    if getattr(run, 'selftest', None) is not None:
+        cov['mutant_selftest'] = run.selftest
     if n_dis != n_obl or exit_code != 0:
         level = 'other'
         cov['explanation'] = ('NOT a proof on this run: %d of %d obligations '
@@ -772,6 +819,37 @@ def finish(run, prop, t0, write_baseline=False):
     return exit_code
 
 
+def mutant_selftest(run):
+    """thorough tier: the deliberate changes recorded for this property
+    (selftest/mutants/*.json, incl. the seeded changes) are applied to
+    scratch copies and this property's quick check must report each one;
+    harmless edits must pass.  The result goes into the evidence; a survivor
+    is printed but does not change the verdict on the unchanged tree."""
+    env = dict(os.environ)
+    env['VERIF_IN_SELFTEST'] = '1'
+    env['VERIF_TIER'] = 'quick'
+    env.pop('VERIF_NO_CACHE', None)
+    env.pop('VERIF_BOUND', None)
+    try:
+        p = subprocess.run(
+            [sys.executable, os.path.join(VERIF, 'selftest', 'run.py'),
+             '--prop', run.pid, '--only-prop', '--jobs', '3'], env=env,
+            stdout=subprocess.PIPE, stderr=subprocess.STDOUT, text=True,
+            timeout=6 * 3600)
+        lines = [ln for ln in p.stdout.splitlines() if ln[:5].strip() in (
+            'PASS', 'FAIL', 'STALE')]
+        run.selftest = {
+            'mutants': len(lines),
+            'as_expected': sum(1 for ln in lines if ln.startswith('PASS')),
+            'not_as_expected': [ln for ln in lines
+                                if not ln.startswith('PASS')],
+            'lines': lines}
+        for ln in run.selftest['not_as_expected']:
+            print('SELFTEST: ' + ln)
+    except Exception as ex:      # noqa
+        run.selftest = {'error': repr(ex)}
+
+
 def main(argv=None):
     ap = argparse.ArgumentParser()
     ap.add_argument('pid')
@@ -790,12 +868,21 @@ def main(argv=None):
         print(out or err)
         return 0
     t0 = time.time()
+    if a.tier == 'thorough':
+        # thorough: nothing is taken from the verification cache, the solver
+        # budget is 6x, the bounded stand-ins use their larger bounds, and
+        # the mutants of this property are run afterwards
+        os.environ['VERIF_NO_CACHE'] = '1'
+        os.environ['VERIF_BOUND'] = 'large'
     run = Run(a.pid, a.tier, seed, repo)
     run.verbose = a.verbose
     try:
         mod = importlib.import_module('props.' + a.pid)
         prop = mod.PROPERTY
         mod.check(run)
+        if a.tier == 'thorough' and os.path.realpath(repo) == '/repo' \
+                and not os.environ.get('VERIF_IN_SELFTEST'):
+            mutant_selftest(run)
     except SystemExit:
         raise
     except Exception:
